@@ -22,3 +22,21 @@ def acknowledge_event_list_contract():
             ("issued", "issued")],
             modifies=["event_ids"])},
         raises={}, modifies=["event_ids"])
+
+
+def get_start_index_contract():
+    """The start of the current MaxConcurrency batch, carried in the Branch stack as 'Range': 'start:end'."""
+    RNG = "context['State']['Branch'][seqlen(context['State']['Branch']) - 1].get('Range', '0:0')"
+    return Contract(
+        E.NOTIFY + "get_start_index", env=E.NOTIFY_ENV, types={"context": "dict"},
+        requires=["haskey(context, 'State')", "isdict(context['State'])",
+                  "implies(haskey(context['State'], 'Branch'), islist(context['State']['Branch']))",
+                  "implies(haskey(context['State'], 'Branch') and seqlen(context['State']['Branch']) > 0, "
+                  "isdict(context['State']['Branch'][seqlen(context['State']['Branch']) - 1]) and isstr(%s) and "
+                  "re_full('[0-9]+:[0-9]+', %s))" % (RNG, RNG)],
+        ensures=[
+            ("C05:no-branch-starts-at-zero", "implies(not haskey(context['State'], 'Branch') or seqlen(context['State']['Branch']) == 0, result == 0)"),
+        ],
+        # the numeric reading of 'start:end' (split + int on strings) is left undecided by the solvers: not claimed
+        # here, exercised by the bounded join schedules instead
+        raises={"ValueError": None, "IndexError": None}, modifies=None)
